@@ -47,10 +47,21 @@ def to_symfloat(x):
     return float(x)
 
 
-def mkf(z):
+MODE = {"mode": "exact"}     # "exact": IEEE-754 terms; "havoc": arithmetic results are unconstrained floats (sound over-approximation)
+_havoc_n = [0]
+
+
+def havoc_float():
+    _havoc_n[0] += 1
+    return SymFloat(z3.FP(f"havoc_f{_havoc_n[0]}", F64))
+
+
+def mkf(z, arith=False):
     z = z3.simplify(z)
     if z3.is_fp_value(z):
         return fp_value_to_float(z)
+    if arith and MODE["mode"] == "havoc":
+        return havoc_float()
     return SymFloat(z)
 
 
@@ -92,7 +103,7 @@ class SymFloat(core.SymFloatBase):
         zo = fval(o)
         if zo is None:
             return NotImplemented
-        return mkf(f(RNE, zo, self.z) if swap else f(RNE, self.z, zo))
+        return mkf(f(RNE, zo, self.z) if swap else f(RNE, self.z, zo), arith=True)
 
     def __add__(self, o):
         return self._bin(o, z3.fpAdd)
@@ -116,7 +127,7 @@ class SymFloat(core.SymFloatBase):
             return NotImplemented
         if mk_bool(z3.fpIsZero(zo)):  # forks when the divisor may be zero
             raise ZeroDivisionError("float division by zero")
-        return mkf(z3.fpDiv(RNE, self.z, zo))
+        return mkf(z3.fpDiv(RNE, self.z, zo), arith=True)
 
     def __rtruediv__(self, o):
         zo = fval(o)
@@ -124,7 +135,7 @@ class SymFloat(core.SymFloatBase):
             return NotImplemented
         if mk_bool(z3.fpIsZero(self.z)):
             raise ZeroDivisionError("float division by zero")
-        return mkf(z3.fpDiv(RNE, zo, self.z))
+        return mkf(z3.fpDiv(RNE, zo, self.z), arith=True)
 
     def __neg__(self):
         return mkf(z3.fpNeg(self.z))
@@ -174,6 +185,8 @@ class SymFloat(core.SymFloatBase):
         big = float(1 << 61)
         if mk_bool(z3.Or(z3.fpGEQ(self.z, z3.FPVal(big, F64)), z3.fpLEQ(self.z, z3.FPVal(-big, F64)))):
             raise Unsupported("int(float) beyond 61 bits")
+        if MODE["mode"] == "havoc":
+            return ctx().fresh_int(f"havoc_i{len(ctx().ph) + ctx().nvars}", -(1 << 61), 1 << 61)
         return mk_int(z3.fpToSBV(RTZ, self.z, z3.BitVecSort(core.W)), -(1 << 61), 1 << 61)
 
     def __int__(self):
@@ -194,8 +207,14 @@ class SymFloat(core.SymFloatBase):
             big = float(1 << 61)
             if mk_bool(z3.Or(z3.fpGEQ(self.z, z3.FPVal(big, F64)), z3.fpLEQ(self.z, z3.FPVal(-big, F64)))):
                 raise Unsupported("round(float) beyond 61 bits")
+            if MODE["mode"] == "havoc":
+                return ctx().fresh_int(f"havoc_r{len(ctx().ph) + ctx().nvars}", -(1 << 61), 1 << 61)
             r = z3.fpRoundToIntegral(RNE, self.z)     # Python round(): half to even
             return mk_int(z3.fpToSBV(RTZ, r, z3.BitVecSort(core.W)), -(1 << 61), 1 << 61)
+        if MODE["mode"] == "havoc":
+            if mk_bool(z3.Or(z3.fpIsNaN(self.z), z3.fpIsInf(self.z))):
+                return self          # round(nan/inf, n) returns the value itself
+            return havoc_float()
         raise Unsupported("round(float, ndigits): correctly-rounded decimal rounding is not modelled")
 
     def __format__(self, spec):
@@ -262,3 +281,43 @@ def float_to_bytes(v, order, width):
 def model_float(m, e):
     v = m.eval(e.z, model_completion=True)
     return fp_value_to_float(v)
+
+
+# ---------------------------------------------------------------- math shim
+import math as _math
+
+
+def math_log10(x):
+    if not isinstance(x, SymFloat):
+        if is_sym(x):
+            x = to_symfloat(x)
+        else:
+            return _math.log10(x)
+    if mk_bool(z3.fpIsNaN(x.z)):
+        return _math.nan
+    if mk_bool(z3.fpLEQ(x.z, z3.FPVal(0.0, F64))):
+        raise ValueError("math domain error")
+    if mk_bool(z3.fpIsInf(x.z)):
+        return _math.inf
+    if MODE["mode"] == "havoc":
+        return havoc_float_finite()
+    raise Unsupported("math.log10 of a symbolic float")
+
+
+def havoc_float_finite():
+    f = havoc_float()
+    ctx().solver.add(z3.Not(z3.fpIsNaN(f.z)), z3.Not(z3.fpIsInf(f.z)))
+    ctx().model = None
+    return f
+
+
+def math_ceil(x):
+    if not isinstance(x, SymFloat):
+        return _math.ceil(x) if not is_sym(x) else x
+    if mk_bool(z3.fpIsNaN(x.z)):
+        raise ValueError("cannot convert float NaN to integer")
+    if mk_bool(z3.fpIsInf(x.z)):
+        raise OverflowError("cannot convert float infinity to integer")
+    if MODE["mode"] == "havoc":
+        return ctx().fresh_int(f"havoc_c{len(ctx().ph) + ctx().nvars}", -400, 400)   # ceil(log10(|finite double|)) lies in [-324, 309]
+    raise Unsupported("math.ceil of a symbolic float")
